@@ -1,0 +1,23 @@
+//go:build verif
+
+package carddav
+
+// Verification hooks (build tag "verif"): thin wrappers that expose unexported
+// codecs to the external verification harness. Add-only; not part of the
+// library when the tag is off.
+
+func VerifNegateUnmarshal(s string) (bool, error) {
+	var nc negateCondition
+	err := nc.UnmarshalText([]byte(s))
+	return bool(nc), err
+}
+
+func VerifFilterTestUnmarshal(s string) error {
+	var ft filterTest
+	return ft.UnmarshalText([]byte(s))
+}
+
+func VerifMatchTypeUnmarshal(s string) error {
+	var mt matchType
+	return mt.UnmarshalText([]byte(s))
+}
